@@ -507,6 +507,10 @@ func (pk *Packet) ConnectValidate() Code {
 		return ErrProtocolViolationQosOutOfRange // [MQTT-3.1.2-11] without a will the will qos must be 0
 	}
 
+	if pk.ProtocolVersion < 5 && pk.Connect.PasswordFlag && !pk.Connect.UsernameFlag {
+		return ErrProtocolViolationFlagNoUsername // [MQTT-3.1.2-22] MQTT 3.1.1: no password without a user name
+	}
+
 	return CodeSuccess
 }
 
